@@ -142,3 +142,53 @@ def m_scan(ex, site, a):
         if r.variant == 0: done[0] = True; return None
         return r.fields[0]
     return lazy(nx, 'scan')
+
+
+@model('bool::then', 'bool::then_some')
+def m_bool_then(ex, site, a):
+    c = a[0]
+    hit = c if isinstance(c, bool) else ex.branch(c)
+    if not hit: return none()
+    return some(ex.call_value(a[1], []) if site.method == 'then' else a[1])
+
+
+@model('Cursor::position')
+def m_cursor_position(ex, site, a):
+    c = deref(ex, a[0]); return c.pos
+
+
+@model('Cursor::set_position')
+def m_cursor_set_position(ex, site, a):
+    c = deref(ex, a[0]); c.pos = a[1]; return unit()
+
+
+@model('Cursor::get_ref', 'Cursor::into_inner')
+def m_cursor_get_ref(ex, site, a):
+    from .models import str_ref
+    c = deref(ex, a[0]); return SliceRef(VecV(list(c.data), 'vec'), 0, len(c.data), 'slice')
+
+
+@model(rx(r'^\*mut .*::write$'), 'ptr::write', 'ptr::write_unaligned')
+def m_ptr_write(ex, site, a):
+    """*dst = v without dropping the old value"""
+    p = a[0]
+    if p is NULL or isinstance(p, NullPtr): raise Panic('null-deref', 'write through a null pointer', ex.where())
+    ex.store(p, a[1]); return unit()
+
+
+@model(rx(r'^\*(const|mut) .*::read$'), 'ptr::read')
+def m_ptr_read(ex, site, a):
+    p = a[0]
+    if p is NULL or isinstance(p, NullPtr): raise Panic('null-deref', 'read through a null pointer', ex.where())
+    return ex.load(p)
+
+
+@model('ptr::eq', 'ptr::addr_eq')
+def m_ptr_eq(ex, site, a):
+    """address equality: the same cell and projection, or the very same object"""
+    x, y = a[0], a[1]
+    if isinstance(x, Ptr) and isinstance(y, Ptr):
+        if x.cell is y.cell and tuple(x.path) == tuple(y.path): return True
+        try: return ex.load(x) is ex.load(y) and isinstance(ex.load(x), (Agg, VecV))
+        except Panic: return False
+    return x is y
